@@ -171,12 +171,11 @@ func (ep *Endpoint) serveUDP() {
 					return
 				}
 				if a.Data != nil {
-					_, err := ep.udp.WriteToUDP(a.Data, src)
-					kind := "send"
-					if err != nil {
-						kind = "send-error"
+					// logged before the write: once the datagram is out the receiver may act on it before this goroutine runs again
+					ep.farm.record(Event{T: Mono(), Kind: "send", Endpoint: ep.Index, Proto: "udp", Src: src.String(), Data: a.Data, Seq: seq})
+					if _, err := ep.udp.WriteToUDP(a.Data, src); err != nil {
+						ep.farm.record(Event{T: Mono(), Kind: "send-error", Endpoint: ep.Index, Proto: "udp", Src: src.String(), Data: a.Data, Seq: seq})
 					}
-					ep.farm.record(Event{T: Mono(), Kind: kind, Endpoint: ep.Index, Proto: "udp", Src: src.String(), Data: a.Data, Seq: seq})
 				}
 			}
 		}()
@@ -231,13 +230,9 @@ func (ep *Endpoint) handleTCP(c *net.TCPConn) {
 			return
 		}
 		if a.Data != nil {
-			_, err := c.Write(a.Data)
-			kind := "send"
-			if err != nil {
-				kind = "send-error"
-			}
-			ep.farm.record(Event{T: Mono(), Kind: kind, Endpoint: ep.Index, Proto: "tcp", Src: src.String(), Data: a.Data, Seq: seq})
-			if err != nil {
+			ep.farm.record(Event{T: Mono(), Kind: "send", Endpoint: ep.Index, Proto: "tcp", Src: src.String(), Data: a.Data, Seq: seq})
+			if _, err := c.Write(a.Data); err != nil {
+				ep.farm.record(Event{T: Mono(), Kind: "send-error", Endpoint: ep.Index, Proto: "tcp", Src: src.String(), Data: a.Data, Seq: seq})
 				return
 			}
 		}
